@@ -25,7 +25,7 @@ ASSUMPTIONS = [
     "responses are minimal-length BER as the property states (non-minimal forms are C06's subject)",
     "engine time in requests may lie between the discovered time and discovered time + elapsed virtual seconds",
 ]
-PROBES = ["pwlen_1", "pwlen_64", "pwlen_not_dividing_2_20", "pwlen_300", "engine_5", "engine_32", "authpriv",
+PROBES = ["same_passphrase_used_with_other_hash_before", "pwlen_1", "pwlen_64", "pwlen_not_dividing_2_20", "pwlen_300", "engine_5", "engine_32", "authpriv",
           "len127_outer_layer", "len128_outer_layer", "len255_outer_layer", "len256_outer_layer", "request_len127_layer",
           "set_payload", "usmstats_as_data", "report_ctx_echo", "engine_id_with_zero_run", "engine_time_max"]
 shrink_lists: List[tuple] = []
@@ -64,10 +64,15 @@ def plan_for(tier: str, seed: int, i: int) -> dict:
     time0 = zrng.choice([4000, 4000, 4000, 2**31 - 1, 0])                           # incl. the maximum engine time
     return {"prop": ID, "proto": proto, "engine_id": eng, "op": op, "payload": payload, "pwlen": pwlen, "context_name": ctx,
             "ctx_echo": rng.random() < 0.3, "ctx_other": rng.random() < 0.15, "time0": time0,
-            "agent_max_size": zrng.choice([65507, 65507, 484, 1472, 2**31 - 1])}
+            "agent_max_size": zrng.choice([65507, 65507, 484, 1472, 2**31 - 1]),
+            # history of the process: ANOTHER user with the same pass-phrases but the other hash algorithm (a migrated
+            # account) has talked to the same engine before, through a client of its own
+            "earlier_user_other_hash": bool(level & 1) and zrng.random() < 0.2}
 
 
 def simplify(plan: dict):
+    if plan.get("earlier_user_other_hash"):
+        p = dict(plan); p["earlier_user_other_hash"] = False; yield p
     if plan["op"] != "get":
         p = dict(plan); p["op"] = "get"; yield p
     if plan["context_name"]:
@@ -107,6 +112,19 @@ def execute(plan: dict) -> dict:
     agent.announce_max_size = int(plan.get("agent_max_size", 65507))
     if plan.get("ctx_other"):
         agent.report_ctx_other = b"\x80\x00\x1f\x88\x04proxied-context"
+    n0 = 0
+    if plan.get("earlier_user_other_hash"):
+        from ..world import agent_user
+        proto0 = dict(proto, user="migrated", auth="sha1" if proto["auth"] == "md5" else "md5")
+        u0 = agent_user(proto0)
+        agent.users[u0.name] = u0
+        client0 = w.client(proto0, timeout=1, retries=1)
+        try:
+            w.run(scen.do_op(client0, {"op": "get", "oid": sorted(mib)[0]}))
+        except Exception:  # noqa: BLE001
+            pass               # not under test here
+        n0 = len(agent.requests)
+    stats0 = dict(agent.stats)
     client = w.client(proto, timeout=1, retries=1, context_name=plan["context_name"])
     op = {"get": {"op": "get", "oid": o1}, "multiget": {"op": "multiget", "oids": [o1, o2, o3]},
           "getnext": {"op": "getnext", "oid": BASE + (1, 1)},
@@ -131,7 +149,7 @@ def execute(plan: dict) -> dict:
         if violation is None:
             violation = {"clause": clause, "detail": "%s | %s" % (d, describe(plan))}
 
-    reqs = agent.requests
+    reqs = agent.requests[n0:]
     disco = [r for r in reqs if r.get("discovery")]
     data = [r for r in reqs if not r.get("discovery")]
     sets: Dict[str, List[int]] = {}
@@ -167,11 +185,12 @@ def execute(plan: dict) -> dict:
                     for n in (127, 128, 255, 256):
                         if v == n:
                             probes["len%d_outer_layer" % n] = 1
-    bad = {k: v for k, v in agent.stats.items() if v and k != "unknown_engine"}
+    stats = {k: v - stats0.get(k, 0) for k, v in agent.stats.items()}
+    bad = {k: v for k, v in stats.items() if v and k != "unknown_engine"}
     if bad:
         fail("usm-stats", "agent counters %r" % bad)
-    if agent.stats["unknown_engine"] != len(disco):
-        fail("usm-stats", "unknownEngineIDs=%d for %d discovery probes" % (agent.stats["unknown_engine"], len(disco)))
+    if stats["unknown_engine"] != len(disco):
+        fail("usm-stats", "unknownEngineIDs=%d for %d discovery probes" % (stats["unknown_engine"], len(disco)))
     excname = type(exc).__name__ if exc else None
     if exc is not None:
         fail("response-refused:" + excname, "authentic response refused: %s: %s" % (excname, exc))
@@ -199,6 +218,7 @@ def execute(plan: dict) -> dict:
             if [o for o, _ in res["scalars"]] != [vbs[0][0]]:
                 fail("wrong-result", "bulkget scalars %r" % (res["scalars"],))
     pw = plan["pwlen"]
+    probes["same_passphrase_used_with_other_hash_before"] = int(bool(plan.get("earlier_user_other_hash")))
     probes["pwlen_1"] = int(pw == 1 and level > 0)
     probes["pwlen_64"] = int(pw == 64 and level > 0)
     probes["pwlen_300"] = int(pw == 300 and level > 0)
